@@ -1,0 +1,23 @@
+//go:build verif
+
+package queue
+
+// Verification hooks (build tag "verif"): VerifGate is called before a queue operation takes the
+// queue's lock (a blocking hook doubles as a scheduler gate); VerifEmit is called under the lock at
+// every linearization point with the event name, the queue and the value concerned.
+var (
+	VerifGate func(op string, q any)
+	VerifEmit func(ev string, q any, v any)
+)
+
+func verifGate(op string, q any) {
+	if VerifGate != nil {
+		VerifGate(op, q)
+	}
+}
+
+func verifEmit(ev string, q any, v any) {
+	if VerifEmit != nil {
+		VerifEmit(ev, q, v)
+	}
+}
